@@ -137,6 +137,655 @@ theorem valWire_decode {v : GoVal} (hv : FlatVal v) : decodeAny (valWire v) = .o
   case bytes b => rfl
   case bool b => cases b <;> rfl
 
+/-! ### labels -/
+
+theorem wrap64_of_range {n : Int} (h : int64Range n) : wrap64 n = n := by
+  unfold int64Range at h
+  unfold wrap64
+  simp only
+  split <;> omega
+
+theorem normalizeLabel_flat {l : GoVal} (hl : FlatLabel l) : normalizeLabel l = some (normVal l) := by
+  cases l <;> simp only [FlatLabel] at hl
+  case int k n => simp only [normalizeLabel, normVal, wrap64_of_range hl]
+  case str b => rfl
+
+theorem normVal_label_normal {l : GoVal} (hl : FlatLabel l) :
+    (∃ n, normVal l = .int .i64 n ∧ int64Range n) ∨ (∃ b, normVal l = .str b) := by
+  cases l <;> simp only [FlatLabel] at hl
+  case int k n => exact Or.inl ⟨n, rfl, hl⟩
+  case str b => exact Or.inr ⟨b, rfl⟩
+
+/-- the normal form of a flat label is again a flat label, and is its own normal form -/
+theorem flatLabel_normVal {l : GoVal} (hl : FlatLabel l) : FlatLabel (normVal l) := by
+  cases l <;> simp only [FlatLabel] at hl
+  case int k n => exact hl
+  case str b => exact hl
+
+theorem normVal_idem_label {l : GoVal} (hl : FlatLabel l) : normVal (normVal l) = normVal l := by
+  cases l <;> simp only [FlatLabel] at hl <;> rfl
+
+theorem normalizeLabel_normVal {l : GoVal} (hl : FlatLabel l) :
+    normalizeLabel (normVal l) = normalizeLabel l := by
+  rw [normalizeLabel_flat (flatLabel_normVal hl), normalizeLabel_flat hl, normVal_idem_label hl]
+
+/-- one step of `labelsOK` on the wire key of a flat label -/
+theorem labelsOK_cons_flat {l : GoVal} (hl : FlatLabel l) (v : Wire) (r : List (Wire × Wire))
+    (seen : List GoVal) :
+    labelsOK ((valWire l, v) :: r) seen =
+      if seen.any (fun e => e.keyEq (normVal l)) then .err .other
+      else labelsOK r (normVal l :: seen) := by
+  cases l <;> simp only [FlatLabel] at hl
+  case int k n =>
+    unfold int64Range at hl
+    simp only [valWire, intWire, normVal]
+    split
+    · have h1 : n.toNat ≤ maxInt64 := by unfold maxInt64; omega
+      have h2 : ((n.toNat : Nat) : Int) = n := by omega
+      simp only [labelsOK, h1, if_true, h2]
+      rfl
+    · have h1 : (-1 - n).toNat ≤ maxInt64 := by unfold maxInt64; omega
+      have h2 : -1 - (((-1 - n).toNat : Nat) : Int) = n := by omega
+      simp only [labelsOK, h1, if_true, h2]
+      rfl
+  case str b =>
+    simp only [valWire, normVal, labelsOK, hl.1, if_true]
+    rfl
+
+/-! ### entry lists -/
+
+def entryWire (e : GoVal × GoVal) : Wire × Wire := (valWire e.1, valWire e.2)
+
+def wireBytes (p : Wire × Wire) : Bytes × Bytes := (p.1.bytes, p.2.bytes)
+
+/-- the entries of a bucket in the order the encoder emits them: sorted bytewise by encoded key -/
+def sortEntries (h : GoMap) : GoMap :=
+  h.mergeSort (fun a b => bytesLe (valWire a.1).bytes (valWire b.1).bytes)
+
+/-- the (key item, value item) pairs of the encoded map, in wire order -/
+def wirePairs (h : GoMap) : List (Wire × Wire) := (sortEntries h).map entryWire
+
+/-- the map item the encoder emits for a flat map -/
+def mapWire (h : GoMap) : Wire := .map (HW.shortest h.length) (wirePairs h)
+
+/-- labels normalised, values as the generic decoder types them -/
+def normEntry (e : GoVal × GoVal) : GoVal × GoVal := (normVal e.1, normVal e.2)
+
+theorem sortEntries_perm (h : GoMap) : (sortEntries h).Perm h := List.mergeSort_perm h _
+
+theorem sortEntries_length (h : GoMap) : (sortEntries h).length = h.length :=
+  (sortEntries_perm h).length_eq
+
+theorem sortEntries_sorted (h : GoMap) :
+    (sortEntries h).Pairwise
+      (fun a b => bytesLe (valWire a.1).bytes (valWire b.1).bytes = true) :=
+  List.pairwise_mergeSort
+    (le := fun (a b : GoVal × GoVal) => bytesLe (valWire a.1).bytes (valWire b.1).bytes)
+    (fun _ _ _ h1 h2 => bytesLe_trans h1 h2)
+    (fun a b => by
+      rcases bytesLe_total (valWire a.1).bytes (valWire b.1).bytes with h | h <;> simp [h]) h
+
+theorem wirePairs_length (h : GoMap) : (wirePairs h).length = h.length := by
+  simp [wirePairs, sortEntries_length]
+
+theorem wirePairs_perm (h : GoMap) : (wirePairs h).Perm (h.map entryWire) :=
+  (sortEntries_perm h).map entryWire
+
+theorem FlatMap.perm {h h' : GoMap} (hp : h.Perm h') (hf : FlatMap h) : FlatMap h' :=
+  fun e he => hf e (hp.mem_iff.mpr he)
+
+theorem FlatMap.sorted {h : GoMap} (hf : FlatMap h) : FlatMap (sortEntries h) :=
+  hf.perm (sortEntries_perm h).symm
+
+theorem FlatMap.tail {e : GoVal × GoVal} {r : GoMap} (hf : FlatMap (e :: r)) : FlatMap r :=
+  fun x hx => hf x (List.mem_cons_of_mem _ hx)
+
+theorem encodePairs_flat (cfg : EncCfg) {h : GoMap} (hf : FlatMap h) :
+    encodePairs cfg h = some (h.map (fun e => wireBytes (entryWire e))) := by
+  rw [C08.encodePairs_eq_some_iff, List.map_map]
+  apply List.map_congr_left
+  intro e he
+  obtain ⟨h1, h2⟩ := hf e he
+  simp only [C08.encPair, valWire_bytes cfg h1.flatVal, valWire_bytes cfg h2, Function.comp,
+    wireBytes, entryWire]
+
+theorem sortPairs_map (h : GoMap) :
+    sortPairs (h.map (fun e => wireBytes (entryWire e)))
+      = (sortEntries h).map (fun e => wireBytes (entryWire e)) := by
+  unfold sortPairs sortEntries
+  exact (List.map_mergeSort (r := fun (a b : GoVal × GoVal) => bytesLe (valWire a.1).bytes (valWire b.1).bytes)
+    (s := fun (a b : Bytes × Bytes) => bytesLe a.1 b.1) (f := fun e => wireBytes (entryWire e))
+    (fun _ _ _ _ => rfl)).symm
+
+theorem concatPairs_wireBytes (l : List (Wire × Wire)) :
+    concatPairs (l.map wireBytes) = Wire.bytesPairs l := by
+  induction l with
+  | nil => rfl
+  | cons p r ih =>
+    obtain ⟨k, v⟩ := p
+    simp only [List.map_cons, wireBytes, concatPairs, Wire.bytesPairs, ih]
+
+theorem concat_sorted (h : GoMap) :
+    concatPairs (sortPairs (h.map (fun e => wireBytes (entryWire e)))) = Wire.bytesPairs (wirePairs h) := by
+  rw [sortPairs_map, ← concatPairs_wireBytes, wirePairs, List.map_map]
+  rfl
+
+theorem wfPairs_flat {g : GoMap} (hf : FlatMap g) : Wire.wfPairs (g.map entryWire) = true := by
+  induction g with
+  | nil => rfl
+  | cons e r ih =>
+    obtain ⟨h1, h2⟩ := hf e (List.mem_cons_self ..)
+    simp only [List.map_cons, entryWire, Wire.wfPairs, valWire_wf h1.flatVal, valWire_wf h2,
+      Bool.and_self, Bool.true_and]
+    exact ih hf.tail
+
+theorem inLimitsPairs_flat (g : GoMap) (t : Bool) (d : Nat) :
+    Wire.inLimitsPairs t d (g.map entryWire) = true := by
+  induction g with
+  | nil => rfl
+  | cons e r ih =>
+    simp only [List.map_cons, entryWire, Wire.inLimitsPairs, valWire_inLimits, Bool.and_self,
+      Bool.true_and]
+    exact ih
+
+theorem hasTagPairs_flat (g : GoMap) : Wire.hasTagPairs (g.map entryWire) = false := by
+  induction g with
+  | nil => rfl
+  | cons e r ih =>
+    simp only [List.map_cons, entryWire, Wire.hasTagPairs, valWire_noTag, Bool.or_self,
+      Bool.false_or]
+    exact ih
+
+theorem shortest_fits_elems {n : Nat} (h : n ≤ maxElems) : (HW.shortest n).fits n = true :=
+  C02.shortest_fits (by unfold maxElems at h; omega)
+
+theorem mapWire_wf {h : GoMap} (hf : FlatMap h) (hlen : h.length ≤ maxElems) :
+    (mapWire h).wf = true := by
+  simp only [mapWire, Wire.wf, wirePairs_length, shortest_fits_elems hlen, Bool.true_and]
+  exact wfPairs_flat hf.sorted
+
+theorem mapWire_inLimits {h : GoMap} (hlen : h.length ≤ maxElems) (t : Bool) (d : Nat)
+    (hd : d + 1 ≤ maxNested) : (mapWire h).inLimits t d = true := by
+  simp only [mapWire, Wire.inLimits, wirePairs_length, hd, hlen, decide_true, Bool.true_and]
+  exact inLimitsPairs_flat _ t (d + 1)
+
+theorem mapWire_noTag (h : GoMap) : (mapWire h).hasTag = false := by
+  simp only [mapWire, Wire.hasTag]
+  exact hasTagPairs_flat _
+
+theorem mapWire_bytes (h : GoMap) :
+    (mapWire h).bytes
+      = encHead 5 h.length ++ concatPairs (sortPairs (h.map (fun e => wireBytes (entryWire e)))) := by
+  simp only [mapWire, Wire.bytes, wirePairs_length, concat_sorted, encHead]
+
+theorem encodeAny_map_flat (cfg : EncCfg) {h : GoMap} (hf : FlatMap h) :
+    encodeAny cfg (.map h) = some (mapWire h).bytes := by
+  rw [C08.encodeAny_map, encodePairs_flat cfg hf, mapWire_bytes]
+
+/-- labels of `g` that are pairwise distinct and fresh w.r.t. `seen` pass `labelsOK` -/
+theorem labelsOK_flat : ∀ (g : GoMap) (seen : List GoVal), FlatMap g → g.Pairwise LabelDistinct →
+    (∀ e ∈ g, seen.any (fun x => x.keyEq (normVal e.1)) = false) →
+    labelsOK (g.map entryWire) seen = .ok ()
+  | [], _, _, _, _ => rfl
+  | e :: r, seen, hf, hp, hs => by
+    obtain ⟨h1, _⟩ := hf e (List.mem_cons_self ..)
+    rw [List.pairwise_cons] at hp
+    rw [List.map_cons, entryWire, labelsOK_cons_flat h1, hs e (List.mem_cons_self ..)]
+    simp only [Bool.false_eq_true, if_false]
+    apply labelsOK_flat r _ hf.tail hp.2
+    intro e' he'
+    rw [List.any_cons, hs e' (List.mem_cons_of_mem _ he'), Bool.or_false]
+    exact hp.1 e' he' _ _ (normalizeLabel_flat h1)
+      (normalizeLabel_flat (hf e' (List.mem_cons_of_mem _ he')).1)
+
+/-- one step of `decodePairs` on the wire entry of a flat entry -/
+theorem decodePairs_cons_flat {e : GoVal × GoVal} (h1 : FlatLabel e.1) (h2 : FlatVal e.2)
+    (r : List (Wire × Wire)) (acc : GoMap) :
+    decodePairs (entryWire e :: r) acc =
+      if acc.any (fun x => x.1.keyEq (normVal e.1)) then .err .other
+      else decodePairs r (normEntry e :: acc) := by
+  simp only [entryWire, decodePairs, valWire_decode h1.flatVal, valWire_decode h2, normEntry]
+  rcases normVal_label_normal h1 with ⟨n, hn, _⟩ | ⟨b, hb⟩
+  · rw [hn]; simp only [keyHashable, Bool.not_true, Bool.false_eq_true, if_false]
+  · rw [hb]; simp only [keyHashable, Bool.not_true, Bool.false_eq_true, if_false]
+
+theorem decodePairs_flat : ∀ (g : GoMap) (acc : GoMap), FlatMap g → g.Pairwise LabelDistinct →
+    (∀ e ∈ g, acc.any (fun x => x.1.keyEq (normVal e.1)) = false) →
+    decodePairs (g.map entryWire) acc = .ok (acc.reverse ++ g.map normEntry)
+  | [], acc, _, _, _ => by simp [decodePairs]
+  | e :: r, acc, hf, hp, hs => by
+    obtain ⟨h1, h2⟩ := hf e (List.mem_cons_self ..)
+    rw [List.pairwise_cons] at hp
+    rw [List.map_cons, decodePairs_cons_flat h1 h2, hs e (List.mem_cons_self ..)]
+    simp only [Bool.false_eq_true, if_false]
+    rw [decodePairs_flat r _ hf.tail hp.2]
+    · simp
+    · intro e' he'
+      rw [List.any_cons, hs e' (List.mem_cons_of_mem _ he'), Bool.or_false]
+      exact hp.1 e' he' _ _ (normalizeLabel_flat h1)
+        (normalizeLabel_flat (hf e' (List.mem_cons_of_mem _ he')).1)
+
+theorem labelsOK_sorted {h : GoMap} (hok : LabelsOK h) : LabelsOK (sortEntries h) :=
+  (labelsOK_perm (sortEntries_perm h).symm).mp hok
+
+/-! ### lookups under `LabelsOK` -/
+
+/-- under `LabelsOK`, `lookupLabel` returns the value of the (unique) entry whose normalised
+    label is the normalised form of the label asked for -/
+theorem lookupLabel_of_mem {g : GoMap} (hok : LabelsOK g) {e : GoVal × GoVal} (he : e ∈ g)
+    {l n : GoVal} (hl : normalizeLabel l = some n) (hn : normalizeLabel e.1 = some n) :
+    lookupLabel g l = some e.2 := by
+  have hl' : normalizeLabel l ≠ none := by rw [hl]; simp
+  unfold lookupLabel
+  cases hlk : g.lookup l with
+  | some v =>
+    simp only
+    unfold GoMap.lookup at hlk
+    cases hf : g.find? (fun e => e.1.keyEq l) with
+    | none => rw [hf] at hlk; cases hlk
+    | some e' =>
+      rw [hf] at hlk
+      have he' := List.mem_of_find?_eq_some hf
+      have hk := List.find?_some hf
+      have h1 := eq_of_keyEq_of_normalizes' hl' hk
+      have h2 : e' = e := entry_eq_of_labelsOK hok he' he (by rw [h1, hl, hn])
+      subst h2
+      simp only [Option.some.injEq] at hlk
+      rw [hlk]
+  | none =>
+    simp only [hl]
+    split
+    · rename_i e' hf2
+      have he' := List.mem_of_find?_eq_some hf2
+      have hp := List.find?_some hf2
+      cases hne : normalizeLabel e'.1 with
+      | none => simp [hne] at hp
+      | some g' =>
+        simp only [hne] at hp
+        have h1 := (keyEq_normalize_iff hne hl).mp hp
+        have h2 : e' = e := entry_eq_of_labelsOK hok he' he (by rw [hne, h1, hn])
+        rw [h2]
+    · rename_i hf2
+      rw [List.find?_eq_none] at hf2
+      have h1 := hf2 e he
+      simp only [hn] at h1
+      exact absurd ((keyEq_normalize_iff hn hl).mpr rfl) h1
+
+theorem lookupLabel_none {g : GoMap} {l n : GoVal} (hl : normalizeLabel l = some n)
+    (hno : ∀ e ∈ g, normalizeLabel e.1 ≠ some n) : lookupLabel g l = none := by
+  cases hlk : lookupLabel g l with
+  | none => rfl
+  | some v =>
+    have h1 : hasLabel g l = true := by unfold hasLabel; rw [hlk]; rfl
+    obtain ⟨e, he, hn⟩ := (C13.hasLabel_norm' g l n hl).mp h1
+    exact absurd hn (hno e he)
+
+theorem normalizeLabel_lbl1 : normalizeLabel (lbl 1) = some (lbl 1) :=
+  normalizeLabel_flat (l := lbl 1) (by simp [lbl, FlatLabel, int64Range])
+
+/-! ### validation survives the round trip -/
+
+theorem normLabels_normEntry {g : GoMap} (hf : FlatMap g) :
+    normLabels (g.map normEntry) = normLabels g := by
+  unfold normLabels
+  rw [List.map_map]
+  apply List.map_congr_left
+  intro e he
+  exact normalizeLabel_normVal (hf e he).1
+
+theorem labelsOK_normEntry {g : GoMap} (hf : FlatMap g) (hok : LabelsOK g) :
+    LabelsOK (g.map normEntry) := by
+  rw [labelsOK_iff_normLabels, normLabels_normEntry hf, ← labelsOK_iff_normLabels]
+  exact hok
+
+/-- the per-label checks only look at the kind of a flat value, which decoding preserves -/
+theorem checkParam_normVal (g : GoMap) (prot : Bool) (l : GoVal) {v : GoVal} (hv : FlatVal v)
+    (hu : UintOK v) (h : checkParam g prot l v = true) : checkParam g prot l (normVal v) = true := by
+  cases v <;> simp only [FlatVal] at hv <;> try exact h
+  case int k n =>
+    unfold checkParam at h ⊢
+    split at h <;>
+      simp_all [normVal, canInt, canUint, canTstr, canBstr, tstrOrUintOK, ensureCritical,
+        isCsigValue, UintOK]
+    all_goals
+      rcases h with h | h
+      · exact Or.inr (hu h)
+      · exact Or.inr h
+  case alg n =>
+    unfold checkParam at h ⊢
+    split at h <;>
+      simp_all [normVal, canInt, canUint, canTstr, canBstr, tstrOrUintOK, ensureCritical,
+        isCsigValue]
+  case crv n =>
+    unfold checkParam at h ⊢
+    split at h <;>
+      simp_all [canInt, canUint, canTstr, canBstr, tstrOrUintOK, ensureCritical,
+        isCsigValue]
+
+theorem validate_normEntry {g : GoMap} (prot : Bool) (hf : FlatMap g) (hu : ∀ e ∈ g, UintOK e.2)
+    (hv : validateHeaderParameters g prot = true) :
+    validateHeaderParameters (g.map normEntry) prot = true := by
+  rw [C13.validate_iff] at hv ⊢
+  obtain ⟨hok, hall⟩ := hv
+  refine ⟨labelsOK_normEntry hf hok, ?_⟩
+  intro e' he'
+  obtain ⟨e, he, rfl⟩ := List.mem_map.mp he'
+  obtain ⟨l, h1, h2⟩ := hall e he
+  refine ⟨l, ?_, ?_⟩
+  · simp only [normEntry]; rw [normalizeLabel_normVal (hf e he).1, h1]
+  · have hhas : ∀ x, normalizeLabel x ≠ none → hasLabel g x = hasLabel (g.map normEntry) x :=
+      fun x hx => C13.hasLabel_congr_norm g _ (normLabels_normEntry hf).symm x x rfl hx
+    rw [← C13.checkParam_congr g _ hhas]
+    exact checkParam_normVal g prot l (hf e he).2 (hu e he) h2
+
+/-! ### the alg retyping of the protected-header decoder -/
+
+/-- `castAlg` on the value stored under label 1 -/
+def algCast : GoVal → GoVal
+  | .int k a => if k.signed then .alg a else .int k a
+  | v => v
+
+def castEntry (e : GoVal × GoVal) : GoVal × GoVal :=
+  if e.1.keyEq (lbl 1) then (e.1, algCast e.2) else e
+
+/-- the entry the protected-header decoder produces for an entry of a flat bucket: label
+    normalised, value as the generic decoder types it, an integer `alg` retyped to `Algorithm` -/
+def decEntry (e : GoVal × GoVal) : GoVal × GoVal := castEntry (normEntry e)
+
+/-- on a bucket with normalised, pairwise distinct labels `castAlg` is an entry-wise map -/
+theorem castAlg_eq_map {m : GoMap} (hok : LabelsOK m)
+    (hn : ∀ e ∈ m, normalizeLabel e.1 = some e.1) : castAlg m = m.map castEntry := by
+  have hl1 : normalizeLabel (lbl 1) ≠ none := by rw [normalizeLabel_lbl1]; simp
+  have hid : ∀ (f : GoVal × GoVal → GoVal × GoVal), (∀ e ∈ m, f e = e) → m = m.map f := by
+    intro f hfe
+    conv => lhs; rw [← List.map_id m]
+    apply List.map_congr_left
+    intro e he
+    exact (hfe e he).symm
+  by_cases hex : ∃ e0 ∈ m, e0.1 = lbl 1
+  · obtain ⟨e0, he0, hk0⟩ := hex
+    have hlk : lookupLabel m (lbl 1) = some e0.2 :=
+      lookupLabel_of_mem hok he0 normalizeLabel_lbl1 (by rw [hn e0 he0, hk0])
+    have huniq : ∀ e ∈ m, e.1.keyEq (lbl 1) = true → e = e0 := by
+      intro e he hk
+      apply entry_eq_of_labelsOK hok he he0
+      rw [eq_of_keyEq_of_normalizes' hl1 hk, hk0]
+    have hhas : m.has (lbl 1) = true := by
+      unfold GoMap.has GoMap.lookup
+      cases hfd : m.find? (fun e => e.1.keyEq (lbl 1)) with
+      | some _ => rfl
+      | none =>
+        rw [List.find?_eq_none] at hfd
+        have h1 := hfd e0 he0
+        rw [hk0] at h1
+        simp [lbl, GoVal.keyEq] at h1
+    have H1 : ∀ a, algCast e0.2 = .alg a → m.set (lbl 1) (.alg a) = m.map castEntry := by
+      intro a ha
+      unfold GoMap.set
+      rw [hhas, if_pos rfl]
+      apply List.map_congr_left
+      intro e he
+      unfold castEntry
+      by_cases hk : e.1.keyEq (lbl 1) = true
+      · have h1 := huniq e he hk
+        subst h1
+        rw [if_pos hk, if_pos hk, ha]
+      · rw [if_neg hk, if_neg hk]
+    have H2 : algCast e0.2 = e0.2 → m = m.map castEntry := by
+      intro ha
+      apply hid
+      intro e he
+      unfold castEntry
+      by_cases hk : e.1.keyEq (lbl 1) = true
+      · have h1 := huniq e he hk
+        subst h1
+        rw [if_pos hk, ha]
+      · rw [if_neg hk]
+    unfold castAlg algorithmOf
+    rw [hlk]
+    cases hv : e0.2 with
+    | int k a =>
+      cases hs : k.signed
+      · simp only [hs, Bool.false_eq_true, if_false]
+        exact H2 (by rw [hv]; simp [algCast, hs])
+      · simp only [hs, if_true]
+        exact H1 a (by rw [hv]; simp [algCast, hs])
+    | alg a => exact H1 a (by rw [hv]; rfl)
+    | _ => exact H2 (by rw [hv]; rfl)
+  · have hno : lookupLabel m (lbl 1) = none := by
+      apply lookupLabel_none normalizeLabel_lbl1
+      intro e he hne
+      rw [hn e he] at hne
+      exact hex ⟨e, he, Option.some.inj hne⟩
+    unfold castAlg algorithmOf
+    rw [hno]
+    apply hid
+    intro e he
+    unfold castEntry
+    by_cases hk : e.1.keyEq (lbl 1) = true
+    · exact absurd ⟨e, he, eq_of_keyEq_of_normalizes' hl1 hk⟩ hex
+    · rw [if_neg hk]
+
+theorem normEntry_normal {g : GoMap} (hf : FlatMap g) :
+    ∀ e ∈ g.map normEntry, normalizeLabel e.1 = some e.1 := by
+  intro e' he'
+  obtain ⟨e, he, rfl⟩ := List.mem_map.mp he'
+  simp only [normEntry]
+  rw [normalizeLabel_flat (flatLabel_normVal (hf e he).1), normVal_idem_label (hf e he).1]
+
+theorem castAlg_normEntry {g : GoMap} (hf : FlatMap g) (hok : LabelsOK g) :
+    castAlg (g.map normEntry) = g.map decEntry := by
+  rw [castAlg_eq_map (labelsOK_normEntry hf hok) (normEntry_normal hf), List.map_map]
+  rfl
+
+/-! ### the protected bucket -/
+
+theorem mapWire_bytes_cons {h : GoMap} (hlen : h.length ≤ maxElems) :
+    ∃ b0 rest, (mapWire h).bytes = b0 :: rest ∧ b0.toNat / 32 = 5 := by
+  have hb : (mapWire h).bytes
+      = headBytes 5 (HW.shortest h.length) h.length ++ Wire.bytesPairs (wirePairs h) := by
+    simp only [mapWire, Wire.bytes, wirePairs_length]
+  cases hc : (mapWire h).bytes with
+  | nil =>
+    have h1 := congrArg List.length hb
+    rw [hc] at h1
+    have h2 := headBytes_length_pos 5 (HW.shortest h.length) h.length
+    simp only [List.length_nil, List.length_append] at h1
+    omega
+  | cons b0 rest =>
+    exact ⟨b0, rest, rfl,
+      C02.first_major (by omega) (shortest_fits_elems hlen) (hc.symm.trans hb)⟩
+
+theorem decProtectedContent_mapWire {h : GoMap} (hf : FlatMap h) (hok : LabelsOK h)
+    (hlen : h.length ≤ maxElems) :
+    decProtectedContent (mapWire h).bytes =
+      if validateHeaderParameters ((sortEntries h).map normEntry) true = true
+      then .ok ((sortEntries h).map decEntry) else .err .other := by
+  obtain ⟨b0, rest, hc, hb0⟩ := mapWire_bytes_cons hlen
+  have hparse : parseTop true (b0 :: rest) = some (.map (HW.shortest h.length) (wirePairs h)) := by
+    rw [← hc]
+    exact parseTop_complete (mapWire_wf hf hlen)
+      (mapWire_inLimits hlen true 0 (by unfold maxNested; omega))
+  have hoks := labelsOK_sorted hok
+  have hlab : labelsOK (wirePairs h) [] = .ok () :=
+    labelsOK_flat (sortEntries h) [] hf.sorted hoks.2 (by intro e _; rfl)
+  have hdec : decodePairs (wirePairs h) [] = .ok ((sortEntries h).map normEntry) := by
+    have := decodePairs_flat (sortEntries h) [] hf.sorted hoks.2 (by intro e _; rfl)
+    simpa [wirePairs] using this
+  rw [hc]
+  simp only [decProtectedContent, hb0, ne_eq, not_true_eq_false, if_false, hparse, hlab, hdec,
+    Out.bind_ok, castAlg_normEntry hf.sorted hoks]
+  cases validateHeaderParameters ((sortEntries h).map normEntry) true <;> rfl
+
+theorem encodeBucket_flat {h : GoMap} (hf : FlatMap h) (prot : Bool)
+    (hv : validateHeaderParameters h prot = true) (hne : h ≠ []) :
+    encodeBucket encCfg prot none h
+      = some (if prot then encBstr (mapWire h).bytes else (mapWire h).bytes) := by
+  cases h with
+  | nil => exact absurd rfl hne
+  | cons e es =>
+    have hv' : encCfg.validate (e :: es) prot = true := hv
+    simp only [encodeBucket, hv', Bool.not_true, Bool.false_eq_true, if_false,
+      encodePairs_flat encCfg hf, mapWire_bytes]
+
+/-! ### splitting a byte-string item into head and content -/
+
+theorem imm_of_fits {w : HW} {n : Nat} (h : w.fits n = true) : w = .imm → n < 24 := by
+  intro hw; subst hw; simpa [HW.fits] using h
+
+theorem imm_of_shortest (n : Nat) : HW.shortest n = .imm → n < 24 := by
+  rcases HeadersDeep.shortest_cases n with ⟨a, _⟩ | ⟨_, _, e⟩ | ⟨_, _, e⟩ | ⟨_, _, e⟩ | ⟨_, e⟩
+  · exact fun _ => a
+  all_goals (rw [e]; intro hc; cases hc)
+
+/-- the first byte of a byte-string head determines its width -/
+theorem bstr_head_width_inj {w w' : HW} {n n' : Nat} {x y : Bytes}
+    (h : headBytes 2 w n ++ x = headBytes 2 w' n' ++ y)
+    (hw : w = .imm → n < 24) (hw' : w' = .imm → n' < 24) : w = w' := by
+  cases w <;> cases w' <;>
+    simp only [headBytes, List.cons_append, List.nil_append, List.cons.injEq,
+      HeadersDeep.ofNat_eq_iff, reduceCtorEq, forall_const, false_implies] at h hw hw' <;>
+    first | rfl | (exfalso; omega)
+
+theorem bstr_split_inj {w w' : HW} {n n' : Nat} {x y : Bytes}
+    (h : headBytes 2 w n ++ x = headBytes 2 w' n' ++ y)
+    (hw : w = .imm → n < 24) (hw' : w' = .imm → n' < 24) : w = w' ∧ x = y := by
+  have h1 := bstr_head_width_inj h hw hw'
+  subst h1
+  exact ⟨rfl, (List.append_inj h (by simp only [HeadersDeep.headBytes_length])).2⟩
+
+/-! ### the algorithm of the decoded protected bucket -/
+
+/-- what `Algorithm()` returns on the decoded bucket, read off the bucket that was encoded:
+    the integer stored under label 1 whatever Go integer type (or `Algorithm`) spells it -/
+def algSpec (h : GoMap) : AlgLookup :=
+  match lookupLabel h (lbl 1) with
+  | none => .notFound
+  | some v =>
+    match normVal v with
+    | .int _ a => .found a
+    | .str _ => .failed .algNotSupported
+    | _ => .failed .invalidAlg
+
+theorem castEntry_fst (e : GoVal × GoVal) : (castEntry e).1 = e.1 := by
+  unfold castEntry; split <;> rfl
+
+theorem decEntry_fst (e : GoVal × GoVal) : (decEntry e).1 = normVal e.1 := by
+  unfold decEntry; rw [castEntry_fst]; rfl
+
+theorem labelsOK_decEntry {g : GoMap} (hf : FlatMap g) (hok : LabelsOK g) :
+    LabelsOK (g.map decEntry) := by
+  have hn : normLabels (g.map decEntry) = normLabels (g.map normEntry) := by
+    unfold normLabels
+    rw [List.map_map, List.map_map]
+    apply List.map_congr_left
+    intro e _
+    simp only [Function.comp, decEntry_fst, normEntry]
+  rw [labelsOK_iff_normLabels, hn, ← labelsOK_iff_normLabels]
+  exact labelsOK_normEntry hf hok
+
+theorem algorithmOf_decEntry {g : GoMap} (hf : FlatMap g) (hok : LabelsOK g) :
+    algorithmOf (g.map decEntry) = algSpec g := by
+  have hokd := labelsOK_decEntry hf hok
+  by_cases hex : ∃ e0 ∈ g, normalizeLabel e0.1 = some (lbl 1)
+  · obtain ⟨e0, he0, hn0⟩ := hex
+    obtain ⟨hl0, hv0⟩ := hf e0 he0
+    have hk0 : normVal e0.1 = lbl 1 := by
+      rw [normalizeLabel_flat hl0] at hn0; exact Option.some.inj hn0
+    have h1 : lookupLabel g (lbl 1) = some e0.2 :=
+      lookupLabel_of_mem hok he0 normalizeLabel_lbl1 hn0
+    have hde : decEntry e0 = (lbl 1, algCast (normVal e0.2)) := by
+      simp only [decEntry, castEntry, normEntry, hk0]
+      rw [if_pos (by simp [lbl, GoVal.keyEq])]
+    have h2 : lookupLabel (g.map decEntry) (lbl 1) = some (algCast (normVal e0.2)) := by
+      have := lookupLabel_of_mem hokd (List.mem_map_of_mem (f := decEntry) he0)
+        normalizeLabel_lbl1 (by rw [hde]; exact normalizeLabel_lbl1)
+      rw [this, hde]
+    unfold algorithmOf algSpec
+    rw [h1, h2]
+    cases hv : e0.2 <;> rw [hv] at hv0 <;> simp only [FlatVal] at hv0 <;>
+      simp [normVal, algCast, IntKind.signed]
+  · have hno : ∀ e ∈ g, normalizeLabel e.1 ≠ some (lbl 1) := fun e he hc => hex ⟨e, he, hc⟩
+    have h1 : lookupLabel g (lbl 1) = none := lookupLabel_none normalizeLabel_lbl1 hno
+    have h2 : lookupLabel (g.map decEntry) (lbl 1) = none := by
+      apply lookupLabel_none normalizeLabel_lbl1
+      intro e' he'
+      obtain ⟨e, he, rfl⟩ := List.mem_map.mp he'
+      rw [decEntry_fst, normalizeLabel_normVal (hf e he).1]
+      exact hno e he
+    unfold algorithmOf algSpec
+    rw [h1, h2]
+
+theorem algSpec_perm {h h' : GoMap} (hp : h.Perm h') (hok : LabelsOK h) : algSpec h = algSpec h' := by
+  unfold algSpec
+  rw [C13.lookupLabel_perm h h' hp hok]
+
+/-- `algSpec` is `algorithmOf` except where `Algorithm()` refuses the Go type of the stored value
+    (an unsigned integer type, or a non-integer non-text value) -/
+theorem algSpec_eq_algorithmOf (h : GoMap) (hne : algorithmOf h ≠ .failed .invalidAlg) :
+    algSpec h = algorithmOf h := by
+  unfold algSpec algorithmOf at *
+  cases hl : lookupLabel h (lbl 1) with
+  | none => rfl
+  | some v =>
+    rw [hl] at hne
+    cases v <;> simp only [normVal] at hne ⊢ <;> try (exact absurd rfl hne)
+    case int k a => cases hs : k.signed <;> simp_all
+
+/-! ### the unprotected bucket -/
+
+theorem isCsigLabel_false_of_check {g : GoMap} {l' l v : GoVal} (hv : FlatVal v)
+    (hl : normalizeLabel l' = some l) (h : checkParam g false l v = true) :
+    isCsigLabel l' = false := by
+  unfold isCsigLabel
+  rw [hl]
+  split
+  · simp only [Option.some.injEq] at *
+    rename_i heq
+    subst heq
+    cases v <;> simp only [FlatVal] at hv <;> simp [checkParam, isCsigValue] at h
+  · simp only [Option.some.injEq] at *
+    rename_i heq
+    subst heq
+    cases v <;> simp only [FlatVal] at hv <;> simp [checkParam, isCsigValue] at h
+  · rfl
+
+theorem decUnprotPairs_flat : ∀ (g : GoMap), FlatMap g →
+    (∀ e ∈ g, isCsigLabel (normVal e.1) = false) →
+    decUnprotPairs (g.map entryWire) = .ok (g.map normEntry)
+  | [], _, _ => by simp [decUnprotPairs]
+  | e :: r, hf, hc => by
+    obtain ⟨h1, h2⟩ := hf e (List.mem_cons_self ..)
+    have ih := decUnprotPairs_flat r hf.tail (fun x hx => hc x (List.mem_cons_of_mem _ hx))
+    rw [List.map_cons, entryWire, decUnprotPairs]
+    simp only [valWire_decode h1.flatVal, hc e (List.mem_cons_self ..), Bool.false_eq_true,
+      if_false, valWire_decode h2, ih, List.map_cons, normEntry]
+
+theorem decUnprot_mapWire {h : GoMap} (hf : FlatMap h) (hu : ∀ e ∈ h, UintOK e.2)
+    (hv : validateHeaderParameters h false = true) :
+    decUnprot (mapWire h) = .ok ((sortEntries h).map normEntry) := by
+  have hok := C13.validate_labels h false hv
+  have hoks := labelsOK_sorted hok
+  have hp := sortEntries_perm h
+  have hvs : validateHeaderParameters (sortEntries h) false = true := by
+    rw [C13.validate_perm_invariant _ _ hp]; exact hv
+  have hlab : labelsOK (wirePairs h) [] = .ok () :=
+    labelsOK_flat (sortEntries h) [] hf.sorted hoks.2 (by intro e _; rfl)
+  have hcs : ∀ e ∈ sortEntries h, isCsigLabel (normVal e.1) = false := by
+    intro e he
+    obtain ⟨l, h1, h2⟩ := ((C13.validate_iff _ _).mp hvs).2 e he
+    have hfe := hf.sorted e he
+    exact isCsigLabel_false_of_check hfe.2 (by rw [normalizeLabel_normVal hfe.1]; exact h1) h2
+  have hdec := decUnprotPairs_flat (sortEntries h) hf.sorted hcs
+  have hvn := validate_normEntry false hf.sorted (fun e he => hu e (hp.mem_iff.mp he)) hvs
+  unfold wirePairs at hlab
+  simp only [mapWire, decUnprot, wirePairs, hlab, hdec, hvn, if_true]
+
+theorem mapWire_nil_bytes : (mapWire []).bytes = [0xa0] := by
+  simp only [mapWire, wirePairs, sortEntries, List.mergeSort_nil, List.map_nil, Wire.bytes,
+    Wire.bytesPairs, List.length_nil, List.append_nil]
+  rfl
+
 end RoundTrip
 
 namespace C08
@@ -149,5 +798,327 @@ theorem flat_value_roundtrip (cfg : EncCfg) (v : GoVal) (hv : FlatVal v) :
       w.hasTag = false ∧ decodeAny w = .ok (normVal v) :=
   ⟨valWire v, valWire_bytes cfg hv, valWire_wf hv, valWire_inLimits v, valWire_noTag v,
     valWire_decode hv⟩
+
+
+/-- 2. a flat label is encoded as one well-formed leaf item; the generic decoder and
+    `normalizeLabel` agree on its normal form, and `labelsOK` accepts the wire key (it only
+    checks that the decoded key was not seen before) -/
+theorem flat_label_roundtrip (cfg : EncCfg) (l : GoVal) (hl : FlatLabel l) :
+    ∃ w : Wire, encodeAny cfg l = some w.bytes ∧ w.wf = true ∧ (∀ t d, w.inLimits t d = true) ∧
+      w.hasTag = false ∧ decodeAny w = .ok (normVal l) ∧ normalizeLabel l = some (normVal l) ∧
+      ∀ (v : Wire) (r : List (Wire × Wire)) (seen : List GoVal),
+        labelsOK ((w, v) :: r) seen =
+          if seen.any (fun e => e.keyEq (normVal l)) then .err .other
+          else labelsOK r (normVal l :: seen) :=
+  ⟨valWire l, valWire_bytes cfg hl.flatVal, valWire_wf hl.flatVal, valWire_inLimits l,
+    valWire_noTag l, valWire_decode hl.flatVal, normalizeLabel_flat hl, labelsOK_cons_flat hl⟩
+
+/-- 3. a flat map with pairwise distinct normalised labels: the encoder emits the map item
+    `mapWire h` (entries sorted by encoded key), which is well formed, within the parser's limits,
+    parsed back by `parseTop`, accepted by `labelsOK`, and decoded by `decodePairs` to the entries
+    of `h` — labels normalised, values as the generic decoder types them — in wire order. -/
+theorem flat_map_roundtrip (cfg : EncCfg) (h : GoMap) (hf : FlatMap h) (hok : LabelsOK h)
+    (hlen : h.length ≤ maxElems) :
+    ∃ (ps : List (Bytes × Bytes)) (kvs : List (Wire × Wire)) (m' : GoMap),
+      encodePairs cfg h = some ps ∧
+      kvs = wirePairs h ∧ kvs.Perm (h.map entryWire) ∧
+      kvs.Pairwise (fun a b => bytesLe a.1.bytes b.1.bytes = true) ∧
+      concatPairs (sortPairs ps) = Wire.bytesPairs kvs ∧
+      (Wire.map (HW.shortest h.length) kvs).wf = true ∧
+      (∀ t, (Wire.map (HW.shortest h.length) kvs).inLimits t 0 = true) ∧
+      (Wire.map (HW.shortest h.length) kvs).hasTag = false ∧
+      encodeAny cfg (.map h) = some (Wire.map (HW.shortest h.length) kvs).bytes ∧
+      (∀ t, parseTop t (Wire.map (HW.shortest h.length) kvs).bytes
+              = some (Wire.map (HW.shortest h.length) kvs)) ∧
+      labelsOK kvs [] = .ok () ∧
+      decodePairs kvs [] = .ok m' ∧
+      m' = (sortEntries h).map normEntry ∧ m'.Perm (h.map normEntry) ∧
+      decodeAny (Wire.map (HW.shortest h.length) kvs) = .ok (.map m') := by
+  have hwf := mapWire_wf hf hlen
+  have hlim : ∀ t, (mapWire h).inLimits t 0 = true :=
+    fun t => mapWire_inLimits hlen t 0 (by unfold maxNested; omega)
+  have hoks := labelsOK_sorted hok
+  have hdec : decodePairs (wirePairs h) [] = .ok ((sortEntries h).map normEntry) := by
+    have := decodePairs_flat (sortEntries h) [] hf.sorted hoks.2 (by intro e _; rfl)
+    simpa [wirePairs] using this
+  refine ⟨_, wirePairs h, (sortEntries h).map normEntry, encodePairs_flat cfg hf, rfl,
+    wirePairs_perm h, ?_, concat_sorted h, hwf, hlim, mapWire_noTag h, encodeAny_map_flat cfg hf,
+    fun t => parseTop_complete hwf (hlim t), ?_, hdec, rfl, (sortEntries_perm h).map normEntry, ?_⟩
+  · unfold wirePairs
+    rw [List.pairwise_map]
+    exact sortEntries_sorted h
+  · exact labelsOK_flat (sortEntries h) [] hf.sorted hoks.2 (by intro e _; rfl)
+  · simp only [decodeAny, hdec]
+
+
+/-- 4. MAIN (protected bucket): what `MarshalProtected` emits for a flat, validated bucket is a
+    byte string with a shortest head whose content `UnmarshalCBOR` of `ProtectedHeader` reads back
+    as the same parameters — labels normalised, integer values as `int64`, `alg` retyped to
+    `Algorithm` (`decEntry`) — in wire order.
+    `hu` (values of unsigned Go integer types are not negative) is needed: see
+    `protected_bucket_roundtrip_needs_uintOK`. -/
+theorem protected_bucket_roundtrip (h : GoMap) (hf : FlatMap h) (hu : ∀ e ∈ h, UintOK e.2)
+    (hv : validateHeaderParameters h true = true) (hlen : h.length ≤ maxElems) (b : Bytes)
+    (he : encodeBucket encCfg true none h = some b) :
+    ∃ (hw : HW) (content : Bytes) (m : GoMap),
+      b = headBytes 2 hw content.length ++ content ∧ hw = HW.shortest content.length ∧
+      (h ≠ [] → content = (mapWire h).bytes) ∧
+      decProtectedContent content = .ok m ∧
+      m = (sortEntries h).map decEntry ∧ m.Perm (h.map decEntry) ∧
+      algorithmOf m = algSpec h := by
+  have hok := C13.validate_labels h true hv
+  have hp := sortEntries_perm h
+  by_cases hne : h = []
+  · subst hne
+    simp only [encodeBucket, if_true, Option.some.injEq] at he
+    subst he
+    refine ⟨.imm, [], [], by decide, by decide, fun hc => absurd rfl hc, by simp [decProtectedContent],
+      by simp [sortEntries], by simp, by simp [algorithmOf, algSpec, lookupLabel, GoMap.lookup, lbl, normalizeLabel]⟩
+  · rw [encodeBucket_flat hf true hv hne] at he
+    simp only [if_true, Option.some.injEq] at he
+    have hvs : validateHeaderParameters (sortEntries h) true = true := by
+      rw [C13.validate_perm_invariant _ _ hp]; exact hv
+    have hvn := validate_normEntry true hf.sorted (fun e he => hu e (hp.mem_iff.mp he)) hvs
+    refine ⟨HW.shortest (mapWire h).bytes.length, (mapWire h).bytes, (sortEntries h).map decEntry,
+      ?_, rfl, fun _ => rfl, ?_, rfl, hp.map decEntry, ?_⟩
+    · rw [← he]; rfl
+    · rw [decProtectedContent_mapWire hf hok hlen, if_pos hvn]
+    · rw [algorithmOf_decEntry hf.sorted (labelsOK_sorted hok), algSpec_perm hp (labelsOK_sorted hok)]
+
+/-- 5. KEY COROLLARY: the algorithm found in the decoded protected bucket is the integer that was
+    stored under label 1 of the encoded bucket (`algSpec`).  No `UintOK` hypothesis: that the
+    decoder's validation passed is part of `hd`. -/
+theorem decoded_alg (h : GoMap) (hne : h ≠ []) (hf : FlatMap h)
+    (hv : validateHeaderParameters h true = true) (hlen : h.length ≤ maxElems)
+    (b content : Bytes) (hw : HW) (hfit : hw = .imm → content.length < 24)
+    (he : encodeBucket encCfg true none h = some b)
+    (hb : b = headBytes 2 hw content.length ++ content) (m : GoMap)
+    (hd : decProtectedContent content = .ok m) :
+    content = (mapWire h).bytes ∧ m = (sortEntries h).map decEntry ∧ m.Perm (h.map decEntry) ∧
+      algorithmOf m = algSpec h := by
+  have hok := C13.validate_labels h true hv
+  have hp := sortEntries_perm h
+  rw [encodeBucket_flat hf true hv hne] at he
+  simp only [if_true, Option.some.injEq] at he
+  have hc : content = (mapWire h).bytes := by
+    have h1 : headBytes 2 (HW.shortest (mapWire h).bytes.length) (mapWire h).bytes.length
+        ++ (mapWire h).bytes = headBytes 2 hw content.length ++ content := by
+      rw [← hb, ← he]; rfl
+    exact (bstr_split_inj h1 (imm_of_shortest _) hfit).2.symm
+  subst hc
+  rw [decProtectedContent_mapWire hf hok hlen] at hd
+  split at hd
+  · simp only [Out.ok.injEq] at hd
+    subst hd
+    refine ⟨rfl, rfl, hp.map decEntry, ?_⟩
+    rw [algorithmOf_decEntry hf.sorted (labelsOK_sorted hok), algSpec_perm hp (labelsOK_sorted hok)]
+  · cases hd
+
+/-- 5, as asked, under the hypothesis that makes it true: `Algorithm()` on the bucket that was
+    encoded does not refuse the Go type of the stored value.  (Without it the statement fails:
+    for `h = {1: uint8(5)}` validation and encoding succeed, `algorithmOf h = .failed .invalidAlg`,
+    but the decoded bucket is `{1: Algorithm(5)}` with `algorithmOf m = .found 5`.) -/
+theorem decoded_alg_eq_partial (h : GoMap) (hne : h ≠ []) (hf : FlatMap h)
+    (hv : validateHeaderParameters h true = true) (hlen : h.length ≤ maxElems)
+    (b content : Bytes) (hw : HW) (hfit : hw.fits content.length = true)
+    (he : encodeBucket encCfg true none h = some b)
+    (hb : b = headBytes 2 hw content.length ++ content) (m : GoMap)
+    (hd : decProtectedContent content = .ok m)
+    (halg : algorithmOf h ≠ .failed .invalidAlg) : algorithmOf m = algorithmOf h := by
+  rw [(decoded_alg h hne hf hv hlen b content hw (imm_of_fits hfit) he hb m hd).2.2.2,
+    algSpec_eq_algorithmOf h halg]
+
+theorem decoded_alg_found (h : GoMap) (hne : h ≠ []) (hf : FlatMap h)
+    (hv : validateHeaderParameters h true = true) (hlen : h.length ≤ maxElems)
+    (b content : Bytes) (hw : HW) (hfit : hw.fits content.length = true)
+    (he : encodeBucket encCfg true none h = some b)
+    (hb : b = headBytes 2 hw content.length ++ content) (m : GoMap)
+    (hd : decProtectedContent content = .ok m) (a : Int)
+    (halg : algorithmOf h = .found a) : algorithmOf m = .found a := by
+  rw [decoded_alg_eq_partial h hne hf hv hlen b content hw hfit he hb m hd (by rw [halg]; simp), halg]
+
+theorem decoded_alg_notFound (h : GoMap) (hne : h ≠ []) (hf : FlatMap h)
+    (hv : validateHeaderParameters h true = true) (hlen : h.length ≤ maxElems)
+    (b content : Bytes) (hw : HW) (hfit : hw.fits content.length = true)
+    (he : encodeBucket encCfg true none h = some b)
+    (hb : b = headBytes 2 hw content.length ++ content) (m : GoMap)
+    (hd : decProtectedContent content = .ok m)
+    (halg : algorithmOf h = .notFound) : algorithmOf m = .notFound := by
+  rw [decoded_alg_eq_partial h hne hf hv hlen b content hw hfit he hb m hd (by rw [halg]; simp), halg]
+
+theorem decoded_alg_text (h : GoMap) (hne : h ≠ []) (hf : FlatMap h)
+    (hv : validateHeaderParameters h true = true) (hlen : h.length ≤ maxElems)
+    (b content : Bytes) (hw : HW) (hfit : hw.fits content.length = true)
+    (he : encodeBucket encCfg true none h = some b)
+    (hb : b = headBytes 2 hw content.length ++ content) (m : GoMap)
+    (hd : decProtectedContent content = .ok m)
+    (halg : algorithmOf h = .failed .algNotSupported) : algorithmOf m = .failed .algNotSupported := by
+  rw [decoded_alg_eq_partial h hne hf hv hlen b content hw hfit he hb m hd (by rw [halg]; simp), halg]
+
+/-- 6. the unprotected bucket (flat: validation already excludes the countersignature labels 7
+    and 11, whose values are not flat): `MarshalUnprotected` emits the map item `mapWire h`, which
+    `UnmarshalCBOR` of `UnprotectedHeader` reads back as the same parameters, labels normalised,
+    values as the generic decoder types them, in wire order. -/
+theorem unprotected_bucket_roundtrip (h : GoMap) (hf : FlatMap h) (hu : ∀ e ∈ h, UintOK e.2)
+    (hv : validateHeaderParameters h false = true) (hlen : h.length ≤ maxElems) (b : Bytes)
+    (he : encodeBucket encCfg false none h = some b) :
+    ∃ (w : Wire) (m : GoMap), b = w.bytes ∧ w = mapWire h ∧ (∀ t, parseTop t b = some w) ∧
+      w.hasTag = false ∧ decUnprot w = .ok m ∧
+      m = (sortEntries h).map normEntry ∧ m.Perm (h.map normEntry) := by
+  have hb : b = (mapWire h).bytes := by
+    by_cases hne : h = []
+    · subst hne
+      simp only [encodeBucket, Bool.false_eq_true, if_false, Option.some.injEq] at he
+      rw [mapWire_nil_bytes, ← he]
+    · rw [encodeBucket_flat hf false hv hne] at he
+      simpa using he.symm
+  subst hb
+  exact ⟨mapWire h, _, rfl, rfl,
+    fun t => parseTop_complete (mapWire_wf hf hlen)
+      (mapWire_inLimits hlen t 0 (by unfold maxNested; omega)),
+    mapWire_noTag h, decUnprot_mapWire hf hu hv, rfl, (sortEntries_perm h).map normEntry⟩
+
+
+/-- 4, on the wire item: the bytes `MarshalProtected` returns parse (in either decode mode) to a
+    byte-string item that `ProtectedHeader.UnmarshalCBOR` accepts.  `hb64`: the encoding is
+    shorter than 2^64 bytes (true of every Go slice). -/
+theorem protected_bucket_wire_roundtrip (h : GoMap) (hf : FlatMap h) (hu : ∀ e ∈ h, UintOK e.2)
+    (hv : validateHeaderParameters h true = true) (hlen : h.length ≤ maxElems) (b : Bytes)
+    (he : encodeBucket encCfg true none h = some b) (hb64 : b.length < 18446744073709551616) :
+    ∃ (w : Wire) (m : GoMap), b = w.bytes ∧ (∀ t, parseTop t b = some w) ∧ w.hasTag = false ∧
+      decProtected w = .ok m ∧ m = (sortEntries h).map decEntry ∧ m.Perm (h.map decEntry) ∧
+      algorithmOf m = algSpec h := by
+  obtain ⟨hw, content, m, hb, hhw, -, hd, hm, hp, ha⟩ :=
+    protected_bucket_roundtrip h hf hu hv hlen b he
+  have hfit : hw.fits content.length = true := by
+    rw [hhw]
+    apply C02.shortest_fits
+    have := congrArg List.length hb
+    simp only [List.length_append] at this
+    omega
+  refine ⟨.bstr hw content, m, by rw [hb]; rfl, ?_, rfl, hd, hm, hp, ha⟩
+  intro t
+  rw [hb]
+  exact parseTop_complete (w := .bstr hw content) hfit rfl
+
+/-- every parameter of the encoded bucket is found again, under any spelling of its label, in
+    the decoded protected bucket -/
+theorem protected_lookup_roundtrip (h : GoMap) (hf : FlatMap h)
+    (hv : validateHeaderParameters h true = true) (e : GoVal × GoVal) (he : e ∈ h) (l : GoVal)
+    (hl : normalizeLabel l = normalizeLabel e.1) :
+    lookupLabel h l = some e.2 ∧
+      lookupLabel ((sortEntries h).map decEntry) l = some (decEntry e).2 := by
+  have hok := C13.validate_labels h true hv
+  have hn := normalizeLabel_flat (hf e he).1
+  refine ⟨lookupLabel_of_mem hok he (hl.trans hn) hn, ?_⟩
+  have hes : e ∈ sortEntries h := (sortEntries_perm h).mem_iff.mpr he
+  exact lookupLabel_of_mem (labelsOK_decEntry hf.sorted (labelsOK_sorted hok))
+    (List.mem_map_of_mem (f := decEntry) hes) (hl.trans hn)
+    (by rw [decEntry_fst, normalizeLabel_normVal (hf e he).1, hn])
+
+/-- a label absent from the encoded bucket is absent from the decoded one -/
+theorem protected_lookup_absent (h : GoMap) (hf : FlatMap h) (l n : GoVal)
+    (hl : normalizeLabel l = some n) (hno : ∀ e ∈ h, normalizeLabel e.1 ≠ some n) :
+    lookupLabel h l = none ∧ lookupLabel ((sortEntries h).map decEntry) l = none := by
+  refine ⟨lookupLabel_none hl hno, lookupLabel_none hl ?_⟩
+  intro e' he'
+  obtain ⟨e, he, rfl⟩ := List.mem_map.mp he'
+  have heh : e ∈ h := (sortEntries_perm h).mem_iff.mp he
+  rw [decEntry_fst, normalizeLabel_normVal (hf e heh).1]
+  exact hno e heh
+
+/-- the same for the unprotected bucket -/
+theorem unprotected_lookup_roundtrip (h : GoMap) (hf : FlatMap h)
+    (hv : validateHeaderParameters h false = true) (e : GoVal × GoVal) (he : e ∈ h) (l : GoVal)
+    (hl : normalizeLabel l = normalizeLabel e.1) :
+    lookupLabel h l = some e.2 ∧
+      lookupLabel ((sortEntries h).map normEntry) l = some (normVal e.2) := by
+  have hok := C13.validate_labels h false hv
+  have hn := normalizeLabel_flat (hf e he).1
+  refine ⟨lookupLabel_of_mem hok he (hl.trans hn) hn, ?_⟩
+  have hes : e ∈ sortEntries h := (sortEntries_perm h).mem_iff.mpr he
+  exact lookupLabel_of_mem (labelsOK_normEntry hf.sorted (labelsOK_sorted hok))
+    (List.mem_map_of_mem (f := normEntry) hes) (hl.trans hn)
+    (by simp only [normEntry]; rw [normalizeLabel_normVal (hf e he).1, hn])
+
+/-- the entries of the decoded protected bucket, spelt out -/
+theorem decEntry_alg {e : GoVal × GoVal} (hk : normVal e.1 = lbl 1) {a : Int}
+    (hv : normVal e.2 = .int .i64 a) : decEntry e = (lbl 1, .alg a) := by
+  simp only [decEntry, castEntry, normEntry, hk, hv]
+  rw [if_pos (by simp [lbl, GoVal.keyEq])]
+  rfl
+
+theorem decEntry_other {e : GoVal × GoVal} (hk : normVal e.1 ≠ lbl 1) :
+    decEntry e = (normVal e.1, normVal e.2) := by
+  have hne : (normVal e.1).keyEq (lbl 1) = false := by
+    cases hc : (normVal e.1).keyEq (lbl 1) with
+    | false => rfl
+    | true =>
+      exact absurd (eq_of_keyEq_of_normalizes' (by rw [normalizeLabel_lbl1]; simp) hc) hk
+  simp only [decEntry, castEntry, normEntry, hne, Bool.false_eq_true, if_false]
+
+/-! ### why the extra hypotheses are needed -/
+
+/-- `hu` in 4 and 6 cannot be dropped: the model's `GoVal.int` admits a "negative `uint8`"
+    (no Go program has one); content type (label 3) accepts any unsigned Go type on the way out,
+    but the decoder types the integer as `int64` and then rejects the negative value. -/
+theorem protected_bucket_roundtrip_needs_uintOK :
+    FlatMap [(lbl 3, .int .u8 (-5))] ∧
+    validateHeaderParameters [(lbl 3, .int .u8 (-5))] true = true ∧
+    encodeBucket encCfg true none [(lbl 3, .int .u8 (-5))] = some [0x43, 0xa1, 0x03, 0x24] ∧
+    decProtectedContent [0xa1, 0x03, 0x24] = .err .other := by
+  refine ⟨?_, ?_, ?_, ?_⟩
+  · intro e he
+    simp only [List.mem_singleton] at he
+    subst he
+    simp [lbl, FlatLabel, FlatVal, int64Range]
+  · simp [validateHeaderParameters, validateLoop, normalizeLabel, wrap64, checkParam, lbl,
+      tstrOrUintOK, canUint, IntKind.signed]
+  · simp [encodeBucket, encCfg, validateHeaderParameters, validateLoop, normalizeLabel, wrap64,
+      checkParam, lbl, tstrOrUintOK, canUint, IntKind.signed, encodePairs, encodeAny, encInt,
+      encHead, encBstr, HW.shortest, headBytes, sortPairs, concatPairs]
+  · simp [decProtectedContent, parseTop, parseItem, parsePairs, fuelFor, parseHead,
+      maxNested, maxElems, labelsOK, maxInt64, GoVal.keyEq, decodePairs, decodeAny, keyHashable,
+      validateHeaderParameters, validateLoop, normalizeLabel, wrap64, checkParam,
+      bind, Out.bind, tstrOrUintOK, canUint, IntKind.signed]
+
+/-- 5 as literally asked (`algorithmOf m = algorithmOf h`) fails when `alg` is spelt with an
+    unsigned Go integer type: `Algorithm()` refuses that type on the bucket that was encoded, but
+    the decoder retypes the value to `Algorithm`. -/
+theorem decoded_alg_eq_counterexample :
+    FlatMap [(lbl 1, .int .u8 5)] ∧ (∀ e ∈ ([(lbl 1, .int .u8 5)] : GoMap), UintOK e.2) ∧
+    validateHeaderParameters [(lbl 1, .int .u8 5)] true = true ∧
+    encodeBucket encCfg true none [(lbl 1, .int .u8 5)] = some [0x43, 0xa1, 0x01, 0x05] ∧
+    decProtectedContent [0xa1, 0x01, 0x05] = .ok [(lbl 1, .alg 5)] ∧
+    algorithmOf [(lbl 1, .int .u8 5)] = .failed .invalidAlg ∧
+    algorithmOf [(lbl 1, .alg 5)] = .found 5 := by
+  refine ⟨?_, ?_, ?_, ?_, ?_, ?_, ?_⟩
+  · intro e he
+    simp only [List.mem_singleton] at he
+    subst he
+    simp [lbl, FlatLabel, FlatVal, int64Range]
+  · intro e he
+    simp only [List.mem_singleton] at he
+    subst he
+    simp [UintOK]
+  · simp [validateHeaderParameters, validateLoop, normalizeLabel, wrap64, checkParam, lbl,
+      canInt]
+  · simp [encodeBucket, encCfg, validateHeaderParameters, validateLoop, normalizeLabel, wrap64,
+      checkParam, lbl, canInt, encodePairs, encodeAny, encInt,
+      encHead, encBstr, HW.shortest, headBytes, sortPairs, concatPairs]
+  · simp [decProtectedContent, parseTop, parseItem, parsePairs, fuelFor, parseHead,
+      maxNested, maxElems, labelsOK, maxInt64, GoVal.keyEq, decodePairs, decodeAny, keyHashable,
+      validateHeaderParameters, validateLoop, normalizeLabel, wrap64, checkParam, castAlg, algorithmOf,
+      lookupLabel, GoMap.lookup, lbl, GoMap.set, GoMap.has, bind, Out.bind, canInt, canTstr,
+      IntKind.signed]
+  · simp [algorithmOf, lookupLabel, GoMap.lookup, lbl, GoVal.keyEq, IntKind.signed]
+  · simp [algorithmOf, lookupLabel, GoMap.lookup, lbl, GoVal.keyEq]
+
+/-- the decomposition hypothesis of 5 needs a fitting head width: with `hw = .imm` and a
+    279-byte map the same bytes split as "head `59`, 281 bytes of content" -/
+theorem bstr_split_needs_fit (m : Bytes) (hm : m.length = 279) :
+    headBytes 2 (HW.shortest m.length) m.length ++ m
+      = headBytes 2 .imm (0x01 :: 0x17 :: m).length ++ (0x01 :: 0x17 :: m) := by
+  simp [hm, HW.shortest, headBytes]
 
 end C08
